@@ -42,8 +42,9 @@ RULE = ("cases = (method, plan, dialogue cut, fault schedule, pre-existing forei
         "descriptor budget at the OS boundary (os.open / Popen answer EMFILE when it is used up), and for the "
         "dual-family OpenBSD-style session (both halves share _pf_context) every command of set-up and tear-down failing "
         "once as exit status and as OSError, pf's enabled flag / tokens / anchor contents compared with before; plus signal "
-        "sequences (SIGHUP/SIGPIPE/SIGINT/SIGTERM, repeated) delivered to a real helper process after STARTED "
-        "before the control channel closes; a case is "
+        "sequences (SIGHUP/SIGPIPE/SIGINT/SIGTERM, repeated) delivered to real helper processes started with default "
+        "dispositions, with os.setsid() succeeding and failing (EPERM, process-group leader), before the dialogue, "
+        "after STARTED and while the tear-down runs; a case is "
         "non-trivial when at least one firewall command was issued; distinct = distinct (method, dialogue, "
         "faults, prelude)")
 MANIFEST = dict(
@@ -87,9 +88,12 @@ MANIFEST = dict(
                 "exactly as before; tear-down: only the failing command's own anchor may keep its content, the other "
                 "family's anchor is flushed and pf is enabled/disabled as before); the anchor references add_anchors() "
                 "leaves in the main ruleset are a known finding. "
-                "Signals: not a theorem; decided on a real "
-                "helper process on every run (real setup_daemon handlers, file-backed packet filter): SIGHUP/SIGPIPE ignored, "
-                "SIGINT/SIGTERM relayed to the client every time they arrive, rules restored once the control channel closes. "
+                "Signals: not a theorem; decided on real "
+                "helper processes on every run (real setup_daemon, default dispositions at start, file-backed packet "
+                "filter), in both environments (os.setsid() succeeding; failing with EPERM as under sudo use_pty) and at "
+                "three moments (before the client has sent anything, session up, tear-down under way): SIGHUP/SIGPIPE "
+                "leave the helper alive and serving, SIGINT/SIGTERM are relayed to the client every time they arrive, the "
+                "rules are restored once the helper has ended by whatever route. "
                 "SIGKILL of the helper is outside (nothing can clean up)."),
     technique="Lean 4 proof (partial-state invariant + frame, Hoare rules over a fault schedule, method-independent layered "
               "session argument) + in-process differential run of the real firewall.main with exhaustive single-fault "
@@ -1545,6 +1549,7 @@ import os, sys
 sys.dont_write_bytecode = True
 harness, repo, method, statefile, hostsfile, resolvectl = sys.argv[1:7]
 verbosity = int(sys.argv[8]) if len(sys.argv) > 8 else 0
+pause_teardown = len(sys.argv) > 9 and sys.argv[9] == '1'
 os.environ['VERIF_REPO'] = repo
 sys.path.insert(0, harness)
 import common
@@ -1568,8 +1573,19 @@ def dump():
     os.rename(statefile + '.tmp', statefile)
 
 
+paused = []
+
+
 class R(c04.Router):
     def run(self, argv, stdin=b''):
+        if pause_teardown and box.teardown_started and not paused:
+            # the tear-down has begun: tell the harness and wait until it has delivered its signals
+            import time
+            paused.append(1)
+            open(statefile + '.td', 'w').close()
+            end = time.time() + 20
+            while not os.path.exists(statefile + '.go') and time.time() < end:
+                time.sleep(0.01)
         r = c04.Router.run(self, argv, stdin)
         dump()
         return r
@@ -1614,14 +1630,31 @@ def _read_line(f, timeout):
     return buf
 
 
+IGNORED_SIGNALS = ('SIGHUP', 'SIGPIPE')       # the helper is meant to survive these untouched
+RELAYED_SIGNALS = ('SIGTERM', 'SIGINT')      # ... and to answer these by interrupting the client, staying alive
+
+
+def _reset_dispositions():
+    """Run in the child before exec: the helper starts with default dispositions, as under sudo, whatever the
+    harness process inherited (nohup / a CI runner may have SIGHUP or SIGINT ignored, which exec would keep)."""
+    import signal
+    for n in ('SIGHUP', 'SIGINT', 'SIGTERM', 'SIGQUIT', 'SIGPIPE'):
+        signal.signal(getattr(signal, n), signal.SIG_DFL)
+
+
 def run_signal_case(case):
-    """case: dict(kind='signal', method, signals=[names], dialogue=[lines], prelude, resolvectl).
+    """case: dict(kind='signal', method, signals=[names], moment, setsid, dialogue, prelude, resolvectl, verbose).
+    moment: 'before-started' (after READY, before the client has sent anything), 'after-started' (session up),
+    'teardown' (channel closed, the first tear-down command about to run).  setsid: 'ok' (os.setsid() in
+    setup_daemon succeeds) or 'eperm' (the helper is a process-group leader, as under sudo use_pty: setsid fails).
     Returns dict(problems=[(key, expected, observed, note)], info=str)."""
     import json
     import signal
     import subprocess
     import time
     method = case['method']
+    moment = case.get('moment', 'after-started')
+    setsid = case.get('setsid', 'ok')
     sigs = [getattr(signal, n) for n in case['signals']]
     py0 = PyEnv()
     for argv in case.get('prelude', []):
@@ -1636,49 +1669,85 @@ def run_signal_case(case):
     problems = []
     relayed = 0
     notes = []
+    died_of = None
     try:
         standin = subprocess.Popen([sys.executable, '-S', '-c', SIGNAL_STANDIN], stdin=subprocess.DEVNULL,
                                    stdout=subprocess.PIPE, stderr=subprocess.DEVNULL, bufsize=0)
         if _read_line(standin.stdout, 10) != b'up\n':
             raise RuntimeError('client stand-in did not start')
         env = dict(os.environ, VERIF_REPO=common.REPO)
+        kw = {}
+        if setsid == 'eperm':
+            kw['process_group'] = 0        # a process-group leader cannot setsid(): EPERM, as under sudo use_pty
         helper = subprocess.Popen(
             [sys.executable, '-c', SIGNAL_HELPER, common.HERE, common.REPO, method, statefile, hostsfile,
              '1' if case.get('resolvectl') else '0', json.dumps(case.get('prelude', [])),
-             str(int(case.get('verbose') or 0))],
-            stdin=subprocess.PIPE, stdout=subprocess.PIPE, stderr=subprocess.DEVNULL, bufsize=0, env=env)
+             str(int(case.get('verbose') or 0)), '1' if moment == 'teardown' else '0'],
+            stdin=subprocess.PIPE, stdout=subprocess.PIPE, stderr=subprocess.DEVNULL, bufsize=0, env=env,
+            preexec_fn=_reset_dispositions, **kw)
         line = _read_line(helper.stdout, 20)
         if not line or not line.startswith(b'READY '):
             raise RuntimeError('helper did not say READY: %r' % (line,))
         dialogue = ''.join(case['dialogue']).replace('{pid}', str(standin.pid)).encode('ASCII')
-        helper.stdin.write(dialogue)
-        line = _read_line(helper.stdout, 20)
-        if line != b'STARTED\n':
-            raise RuntimeError('helper did not say STARTED: %r' % (line,))
-        with open(statefile) as f:
-            during = f.read().split('\n')[0]
-        if during == s0:
-            raise RuntimeError('set-up changed nothing; the case would be vacuous')
-        for n, sg in zip(case['signals'], sigs):
-            if helper.poll() is not None:
-                break
-            os.kill(helper.pid, sg)
-            if sg in (signal.SIGTERM, signal.SIGINT):
-                # the helper relays an interrupt to the client; wait until it did (or died)
-                end = time.time() + 5
-                got = None
-                while time.time() < end and helper.poll() is None and got is None:
-                    got = _read_line(standin.stdout, 0.05)
-                if got == b'INT\n':
-                    relayed += 1
-                else:
-                    notes.append('%s not relayed' % n)
-            time.sleep(0.1)       # let the handler return before the next signal
-        # the client reacts: it closes the control channel
+
+        def start_session():
+            helper.stdin.write(dialogue)
+            ln = _read_line(helper.stdout, 20)
+            return ln == b'STARTED\n', ln
+
+        def deliver():
+            nonlocal relayed, died_of
+            for n, sg in zip(case['signals'], sigs):
+                if helper.poll() is not None:
+                    break
+                os.kill(helper.pid, sg)
+                if n in RELAYED_SIGNALS and moment != 'before-started':
+                    # the helper relays an interrupt to the client; wait until it did (or died)
+                    end = time.time() + 5
+                    got = None
+                    while time.time() < end and helper.poll() is None and got is None:
+                        got = _read_line(standin.stdout, 0.05)
+                    if got == b'INT\n':
+                        relayed += 1
+                    else:
+                        notes.append('%s not relayed' % n)
+                time.sleep(0.1)       # let the handler return before the next signal
+                if helper.poll() is not None and died_of is None:
+                    died_of = n
+
+        started = False
+        during = None
+        if moment == 'before-started':
+            deliver()
+            if helper.poll() is None:
+                # still alive: it must still serve a session
+                started, ln = start_session()
+                if not started:
+                    notes.append('no STARTED after the signals: %r' % (ln,))
+        else:
+            started, ln = start_session()
+            if not started:
+                raise RuntimeError('helper did not say STARTED: %r' % (ln,))
+            with open(statefile) as f:
+                during = f.read().split('\n')[0]
+            if during == s0:
+                raise RuntimeError('set-up changed nothing; the case would be vacuous')
+            if moment == 'after-started':
+                deliver()
+        # the client goes away / reacts to the interrupt: it closes the control channel
         try:
             helper.stdin.close()
         except (IOError, OSError):
             pass
+        if moment == 'teardown':
+            end = time.time() + 10
+            while not os.path.exists(statefile + '.td') and helper.poll() is None and time.time() < end:
+                time.sleep(0.01)
+            if os.path.exists(statefile + '.td'):
+                deliver()
+            else:
+                notes.append('tear-down never began')
+            open(statefile + '.go', 'w').close()
         try:
             helper.wait(timeout=15)
         except subprocess.TimeoutExpired:
@@ -1691,27 +1760,37 @@ def run_signal_case(case):
         with open(hostsfile) as f:
             hosts = f.read()
         rc = helper.returncode
-        want_relays = sum(1 for sg in sigs if sg in (signal.SIGTERM, signal.SIGINT))
+        want_relays = 0 if moment == 'before-started' else sum(1 for n in case['signals'] if n in RELAYED_SIGNALS)
+        where = 'signals %s delivered to the helper %s (os.setsid() %s), then the control channel closed; ' \
+                '%d of %d interrupts relayed to the client' % (
+                    case['signals'], moment, 'succeeds' if setsid == 'ok' else 'fails with EPERM', relayed,
+                    want_relays)
         if final != s0:
             if rc is not None and rc < 0:
-                key = 'C04:signal:second-signal-kills-helper-before-restore' if len(sigs) > 1 else \
-                    'C04:signal:signal-kills-helper-before-restore'
+                if died_of in RELAYED_SIGNALS or died_of is None:
+                    key = 'C04:signal:second-signal-kills-helper-before-restore' if len(sigs) > 1 else \
+                        'C04:signal:signal-kills-helper-before-restore'
+                else:
+                    key = 'C04:signal:%s-kills-helper-before-restore' % died_of.lower()
             else:
                 key = 'C04:signal:rules-not-restored'
             problems.append((key, 'configuration after the helper is gone == configuration before the session',
-                             'helper exit status %r (negative = killed by that signal); configuration after: %s'
-                             % (rc, pretty or '(see state)'),
-                             'signals %s delivered to the helper after STARTED, then the control channel closed; '
-                             '%d of %d interrupts relayed to the client' % (case['signals'], relayed, want_relays)))
-        elif rc != 0 or relayed != want_relays or hosts != HOSTS0:
-            problems.append(('C04:signal:helper-did-not-relay-and-finish',
-                             'exit status 0, %d interrupts relayed, hosts file as before' % want_relays,
-                             'exit status %r, %d relayed, hosts file %s; %s'
-                             % (rc, relayed, 'as before' if hosts == HOSTS0 else 'changed', '; '.join(notes)),
-                             'signals %s delivered to the helper after STARTED' % (case['signals'],)))
-        info = 'signals=%s relayed=%d/%d helper-exit=%r restored=%s' % (
-            case['signals'], relayed, want_relays, rc, final == s0)
-        return dict(problems=problems, info=info, commands=during != s0)
+                             'helper exit status %r (negative = killed by that signal, after %s); configuration '
+                             'after: %s' % (rc, died_of, pretty or '(see state)'), where))
+        elif rc != 0 or relayed != want_relays or hosts != HOSTS0 or \
+                (moment == 'before-started' and not started):
+            key = 'C04:signal:helper-did-not-relay-and-finish'
+            if rc is not None and rc < 0 and died_of in IGNORED_SIGNALS:
+                key = 'C04:signal:%s-kills-helper' % died_of.lower()
+            problems.append((key,
+                             'helper alive and serving, exit status 0 at the end, %d interrupts relayed, hosts file as '
+                             'before' % want_relays,
+                             'exit status %r, %d relayed, session started=%s, hosts file %s; %s'
+                             % (rc, relayed, started, 'as before' if hosts == HOSTS0 else 'changed', '; '.join(notes)),
+                             where))
+        info = 'signals=%s moment=%s setsid=%s relayed=%d/%d helper-exit=%r restored=%s' % (
+            case['signals'], moment, setsid, relayed, want_relays, rc, final == s0)
+        return dict(problems=problems, info=info, commands=during is not None)
     finally:
         for pr in (helper, standin):
             if pr is not None and pr.poll() is None:
@@ -1731,29 +1810,55 @@ def run_signal_case(case):
 def signal_cases(ctx):
     dialogue = ['ROUTES\n', '2,24,0,1.2.3.0,0,0\n', '10,64,0,2404:6800:4004:80c::,0,0\n', 'NSLIST\n',
                 '2,1.2.3.33\n', 'PORTS 12300,12301,12302,12303\n', 'GO 0 - - 0x01 {pid}\n']
-    seqs = [('nat', ['SIGHUP', 'SIGTERM', 'SIGTERM']), ('tproxy', ['SIGINT', 'SIGINT'])]
+    # every signal a helper can legitimately receive while it serves, in both environments (os.setsid()
+    # succeeding / failing with EPERM as under sudo use_pty), at three moments of the session
+    everything = ['SIGHUP', 'SIGPIPE', 'SIGTERM', 'SIGINT', 'SIGHUP', 'SIGTERM']
+    methods = ['nat', 'tproxy', 'nft']
+    seqs = []
+    n = 0
+    for setsid in ('ok', 'eperm'):
+        for moment in ('after-started', 'before-started', 'teardown'):
+            seqs.append((methods[n % 3], everything, moment, setsid))
+            n += 1
+    seqs.append(('tproxy', ['SIGINT', 'SIGINT'], 'after-started', 'ok'))
     if ctx.thorough:
-        seqs += [('nft', ['SIGTERM', 'SIGINT', 'SIGTERM']), ('nat', ['SIGPIPE', 'SIGINT', 'SIGTERM', 'SIGINT']),
-                 ('tproxy', ['SIGTERM']), ('nat', ['SIGHUP', 'SIGHUP', 'SIGPIPE']), ('nft', ['SIGINT', 'SIGINT', 'SIGINT'])]
-    for method, names in seqs:
-        yield dict(kind='signal', method=method, signals=names, dialogue=dialogue,
+        for setsid in ('ok', 'eperm'):
+            for moment in ('after-started', 'before-started', 'teardown'):
+                for sg in ('SIGHUP', 'SIGPIPE', 'SIGTERM', 'SIGINT'):
+                    seqs.append((methods[n % 3], [sg], moment, setsid))
+                    n += 1
+        seqs += [('nft', ['SIGTERM', 'SIGINT', 'SIGTERM'], 'after-started', 'ok'),
+                 ('nat', ['SIGHUP', 'SIGHUP', 'SIGPIPE'], 'teardown', 'ok'),
+                 ('nft', ['SIGINT', 'SIGINT', 'SIGINT'], 'teardown', 'eperm')]
+    for method, names, moment, setsid in seqs:
+        yield dict(kind='signal', method=method, signals=names, moment=moment, setsid=setsid, dialogue=dialogue,
                    prelude=FOREIGN_PRELUDE[:4], resolvectl=False, verbose=next_verbosity())
 
 
 def run_signals(ctx):
-    for case in signal_cases(ctx):
+    from concurrent.futures import ThreadPoolExecutor
+    cases = list(signal_cases(ctx))
+
+    def one(case):
         try:
-            r = run_signal_case(case)
+            return run_signal_case(case)
         except RuntimeError as e:
-            ctx.notes.append('signal case %s/%s could not be set up: %s' % (case['method'], case['signals'], e))
+            return e
+    with ThreadPoolExecutor(max_workers=8) as ex:
+        results = list(ex.map(one, cases))
+    for case, r in zip(cases, results):
+        if isinstance(r, RuntimeError):
+            ctx.notes.append('signal case %s/%s/%s/%s could not be set up: %s' % (
+                case['method'], case['signals'], case['moment'], case['setsid'], r))
             ctx.hist('signal:not-run')
             continue
         ctx.count()
-        ctx.mark(('signal', case['method'], tuple(case['signals'])), True)
-        ctx.hist('signal:' + '+'.join(case['signals']))
+        ctx.mark(('signal', case['method'], tuple(case['signals']), case['moment'], case['setsid']), True)
+        ctx.hist('signal:%s:setsid-%s' % (case['moment'], case['setsid']))
         ctx.hist('verbosity:%d' % case['verbose'])
         if len(ctx.samples) < 8:
-            ctx.samples.append(dict(kind='signal', method=case['method'], signals=case['signals'], real_code=r['info']))
+            ctx.samples.append(dict(kind='signal', method=case['method'], signals=case['signals'],
+                                    moment=case['moment'], setsid=case['setsid'], real_code=r['info']))
         for key, exp, obs, note in r['problems']:
             ctx.violation(key, case=case, expected=exp, observed=obs, note=note, kind='ops')
 
